@@ -86,7 +86,17 @@ GRAPHS = {
                                                                RET(B('+', P('P1'), call('instance', SELF, 'Instance_Based_Operation',
                                                                                         P1=P('P1'), P2=B('-', P('P2'), I(1)))))]},
 }
+GRAPHS['side_effect_operands'] = {
+    # both operands of and / or are evaluated (OAL has no short-circuit evaluation): the invoked function's
+    # side effect (a created instance) must happen whatever the left operand is
+    ('function', 'F1'): [let('x', B('and', B('>', P('a'), I(0)), FN('F2', x=I(1)))),
+                         let('y', B('or', B('>', P('b'), I(0)), FN('F2', x=I(2)))),
+                         ('select', 'many', 'cs', 'Class', None),
+                         IF(B('and', V('x'), V('y')), [RET(B('+', U('cardinality', V('cs')), I(100)))]),
+                         RET(U('cardinality', V('cs')))],
+    ('function', 'F2'): [('create', 'c', 'Class'), seta('c', 'val', P('x')), RET(T)]}
 G = GRAPHS[GRAPH]
+STYLE = PARAMS.get('style', 'lower')
 BP = None
 
 
@@ -106,9 +116,9 @@ def load_bp():
     return m
 
 
-def install(m):
+def install(m, style=None):
     for key, body in G.items():
-        text = oalgen.to_text(body)
+        text = oalgen.to_text(body, style or STYLE)
         if key[0] == 'function':
             m.select_one('S_SYNC', lambda s: s.Name == key[1]).Action_Semantics_internal = text
         elif key[0] in ('class', 'instance'):
@@ -175,7 +185,7 @@ def check(a: int, b: int, n: int, v0: int, v1: int) -> bool:
     p0.vals['val'] = v0; p1.vals['val'] = v1
     f1 = dom.find_symbol('F1')
     got = f1(a=a, b=b, n=n)
-    case(GRAPH)
+    case(GRAPH, STYLE)
     ref = oalgen.RefEval(pop, dict(a=a, b=b, n=n), None, callables())
     exp = ref.run(G[('function', 'F1')])
     if (got is None) != (exp is None) or (got is not None and not (got == exp)):
@@ -184,4 +194,36 @@ def check(a: int, b: int, n: int, v0: int, v1: int) -> bool:
     ev = [r.vals['val'] for r in pop.rows['Class']]
     if len(gv) != len(ev) or any(not (x == y) for x, y in zip(gv, ev)):
         LAST_DIFF = ('Class.val after the call', repr(gv), repr(ev)); return False
+    return True
+
+
+BP2 = None
+
+
+def check_case(a: int, b: int, n: int, v0: int, v1: int) -> bool:
+    """
+    pre: 0 <= n <= 4
+    post: POST(_)
+    """
+    # C08, differential inside the implementation: the same call graph with lower-case and with
+    # STYLE-case keywords computes the same result and leaves the same attribute values
+    global LAST_DIFF, BP, BP2
+    outs = []
+    for which in (0, 1):
+        with notrace():
+            if BP is None:
+                BP = load_bp(); install(BP, 'lower')
+                BP2 = load_bp(); install(BP2, STYLE)
+            dom = ooaofooa.mk_component(BP if which == 0 else BP2)
+            dom.find_metaclass('Class').append_attribute('val', 'integer')
+            r0, r1 = dom.new('Class'), dom.new('Class')
+        r0.val = v0; r1.val = v1
+        got = dom.find_symbol('F1')(a=a, b=b, n=n)
+        outs.append((got, [i.val for i in dom.select_many('Class')]))
+    case('case-diff', GRAPH, STYLE)
+    (g0, vals0), (g1, vals1) = outs
+    if (g0 is None) != (g1 is None) or (g0 is not None and not (g0 == g1)):
+        LAST_DIFF = ('result differs between lower-case and %s keywords' % STYLE, repr(g0), repr(g1)); return False
+    if len(vals0) != len(vals1) or any(not (x == y) for x, y in zip(vals0, vals1)):
+        LAST_DIFF = ('final model differs between lower-case and %s keywords' % STYLE, repr(vals0), repr(vals1)); return False
     return True
